@@ -267,6 +267,69 @@ fn check_cand(c: &CandCase, ctx: &mut Ctx) {
 
 
 // ------------------------------------------------------------------------------------------------
+// section replication_sender: whose replication lists a node acts on is a closeness decision
+// ------------------------------------------------------------------------------------------------
+
+#[derive(Clone, Debug, Serialize, Deserialize)]
+pub struct SenderCase {
+    pub peers: Vec<u16>,
+    /// closeness rank (to the node itself) of the peer that presents a replication list
+    pub sender_rank: u16,
+    pub keys: u8,
+}
+
+pub fn sender_strategy() -> BoxedStrategy<SenderCase> {
+    (proptest::collection::vec(0u16..400, 22..vh_core::depth(46, 70)), any::<u16>(), 1u8..3)
+        .prop_map(|(peers, sender_rank, keys)| SenderCase { peers, sender_rank, keys })
+        .boxed()
+}
+
+pub fn check_sender(c: &SenderCase, ctx: &mut Ctx) {
+    let dir = new_tempdir();
+    let mut sim = DriverSim::new_node(dir.path(), keypair_from_seed(0xC11), None);
+    let me = sim.peer_id();
+    let mut inserted: Vec<PeerId> = vec![];
+    let mut seen = std::collections::BTreeSet::new();
+    for p in &c.peers {
+        if !seen.insert(*p) {
+            continue;
+        }
+        let id = fix::peer(1000 + *p as u64);
+        let addr: libp2p::Multiaddr = format!("/ip4/127.0.0.1/udp/{}/quic-v1", 10000 + *p).parse().unwrap();
+        if sim.with_driver(|d| d.verif_add_peer(id, addr)) {
+            inserted.push(id);
+        }
+    }
+    if inserted.is_empty() {
+        return;
+    }
+    let sb = me.to_bytes();
+    let mut by_self: Vec<(U256, PeerId)> = inserted.iter().map(|p| (ref_distance(&sb, &p.to_bytes()), *p)).collect();
+    by_self.sort_by(|a, b| a.0.cmp(&b.0));
+    // ranks around the boundary of the K = 20 closest are drawn as often as all others together
+    let rank = if c.sender_rank & 1 == 0 { pick_idx(c.sender_rank, by_self.len()) } else { (16 + (c.sender_rank >> 1) as usize % 8).min(by_self.len() - 1) };
+    let holder = by_self[rank].1;
+    let list: Vec<(NetworkAddress, ant_protocol::storage::RecordType)> = (0..c.keys)
+        .map(|i| (NetworkAddress::from_record_key(&RecordKey::new(&fix::h32("c11-sender-key", &[i as u64, rank as u64]))), ant_protocol::storage::RecordType::Chunk))
+        .collect();
+    sim.with_driver(|d| d.verif_on_replicate(NetworkAddress::from_peer(holder), list));
+    sim.run_tasks(1);
+    let acted = sim.with_driver(|d| d.verif_fetcher_to_be_fetched().len() + d.verif_fetcher_on_going().len()) > 0
+        || sim.seen_events.iter().any(|e| matches!(e, ant_networking::NetworkEvent::KeysToFetchForReplication(_)));
+    ctx.label(format!("rank_{}", match rank { 0..=15 => "0_15", 16..=18 => "16_18", 19 => "19", 20..=23 => "20_23", _ => "24_up" }));
+    ctx.label_if(acted, "list_acted_upon");
+    ctx.nontrivial_if(by_self.len() > 20);
+    // the K = 20 closest (the node counts itself in): the 19 nearest others certainly, the 20th either way
+    if rank <= 18 && !acted {
+        ctx.fail("replication_list_from_one_of_the_closest_peers_ignored", format!("{} peers known; the sender is the {}-nearest to the node, its list was ignored", by_self.len(), rank + 1));
+    }
+    if rank >= 20 && acted {
+        ctx.fail("replication_list_from_a_peer_beyond_the_closest_acted_upon", format!("{} peers known; the sender is only the {}-nearest to the node (K = 20), yet its list of {} key(s) was acted upon", by_self.len(), rank + 1, c.keys));
+    }
+}
+
+
+// ------------------------------------------------------------------------------------------------
 // the node's answer to GetClosestPeers (ant-node, through the VerifNode pass-through)
 // ------------------------------------------------------------------------------------------------
 
@@ -528,6 +591,11 @@ pub fn run(cfg: RunCfg) {
         rep, "candidates", (5_000, 100_000), 16,
         "real node driver with a generated routing table and responsible range; non-trivial: >= 5 peers inserted and a range set",
         cand_strategy, check_cand
+    );
+    vh_core::section!(
+        rep, "replication_sender", (2_500, 60_000), 16,
+        "real node driver with 22-70 routing-table peers; a replication list of 1-2 unknown keys from the peer of a generated closeness rank (boundary ranks 16-23 drawn half of the time): acted upon iff the sender is among the K = 20 closest (rank 19 either way); non-trivial: > 20 peers known",
+        sender_strategy, check_sender
     );
     vh_core::section!(
         rep, "node_closest_peers", (40_000, 2_000_000), 16,
